@@ -147,6 +147,53 @@ def char_set(item: Tuple[Any, Any]) -> Optional[Tuple[bool, set]]:
     return None
 
 
+def finite_language(seq: Any, cap: int = 64) -> Optional[set]:
+    """Every string the sequence can match, when there are at most `cap` of them: literals, small positive
+    character classes, alternations, groups and small bounded repeats.  None when the language is not known to
+    be that small (an unbounded repeat, a negated class, a category, a look-around...)."""
+    out = {""}
+    for op, av in seq:
+        if op in (sre_c.LITERAL, sre_c.IN):
+            cs = char_set((op, av))
+            if cs is None or cs[0] or not cs[1] or not all(isinstance(c, str) and len(c) == 1 for c in cs[1]):
+                return None
+            alts: Optional[set] = set(cs[1])
+        elif op is sre_c.SUBPATTERN:
+            if av[1] or av[2]:
+                return None  # inline flags
+            alts = finite_language(av[3], cap)
+        elif op is sre_c.BRANCH:
+            alts = set()
+            for alt in av[1]:
+                la = finite_language(alt, cap)
+                if la is None:
+                    return None
+                alts |= la
+        elif op in (sre_c.MAX_REPEAT, sre_c.MIN_REPEAT):
+            lo, hi, body = av
+            if hi is MAXREPEAT or int(hi) > 3:  # noqa: PLR2004
+                return None
+            lb = finite_language(body, cap)
+            if lb is None:
+                return None
+            alts = set()
+            for k in range(int(lo), int(hi) + 1):
+                cur = {""}
+                for _ in range(k):
+                    cur = {a + b for a in cur for b in lb}
+                    if len(cur) > cap:
+                        return None
+                alts |= cur
+        else:
+            return None
+        if alts is None:
+            return None
+        out = {a + b for a in out for b in alts}
+        if len(out) > cap:
+            return None
+    return out
+
+
 def is_digit_class(item: Tuple[Any, Any]) -> bool:
     cs = char_set(item)
     if cs is None:
@@ -341,3 +388,118 @@ def shapes(seq: Any, cap: int = 600) -> List[str]:
             step = len(results) / cap
             results = [results[int(i * step)] for i in range(cap)]
     return results
+
+
+# ------------------------------------------------------------------ ambiguity of repetitions
+_ALPHABET: List[str] = [chr(i) for i in range(128)] + ["é", " ", "☃", "퟿", "", "\U0001f600"]
+_CATEGORY_RE = {
+    "CATEGORY_DIGIT": r"\d", "CATEGORY_NOT_DIGIT": r"\D", "CATEGORY_SPACE": r"\s", "CATEGORY_NOT_SPACE": r"\S",
+    "CATEGORY_WORD": r"\w", "CATEGORY_NOT_WORD": r"\W",
+}
+
+
+def _one_char(item: Tuple[Any, Any]) -> Optional[set]:
+    """The characters of the representative alphabet a one-character matcher accepts (None: not such a matcher)."""
+    op, av = item
+    if op is sre_c.LITERAL:
+        return {chr(av)} & set(_ALPHABET) or {chr(av)}
+    if op is sre_c.NOT_LITERAL:
+        return {c for c in _ALPHABET if c != chr(av)}
+    if op is sre_c.ANY:
+        return set(_ALPHABET)
+    if op is sre_c.IN:
+        neg = False
+        acc: set = set()
+        for o, a in av:
+            if o is sre_c.NEGATE:
+                neg = True
+            elif o is sre_c.LITERAL:
+                acc.add(chr(a))
+            elif o is sre_c.RANGE:
+                acc |= {c for c in _ALPHABET if a[0] <= ord(c) <= a[1]}
+            elif o is sre_c.CATEGORY:
+                cre = _CATEGORY_RE.get(str(a))
+                if cre is None:
+                    return set(_ALPHABET)
+                acc |= {c for c in _ALPHABET if re.fullmatch(cre, c)}
+        return {c for c in _ALPHABET if c not in acc} if neg else acc
+    return None
+
+
+def first_chars(seq: Any) -> Tuple[set, bool]:
+    """(characters of the representative alphabet a match of `seq` can begin with, can it match the empty text)."""
+    out: set = set()
+    for op, av in seq:
+        one = _one_char((op, av))
+        if one is not None:
+            return out | one, False
+        if op is sre_c.SUBPATTERN:
+            f, nul = first_chars(av[3])
+        elif op is sre_c.BRANCH:
+            f, nul = set(), False
+            for alt in av[1]:
+                fa, na = first_chars(alt)
+                f |= fa
+                nul = nul or na
+        elif op in (sre_c.MAX_REPEAT, sre_c.MIN_REPEAT, getattr(sre_c, "POSSESSIVE_REPEAT", None)):
+            f, nul = first_chars(av[2])
+            nul = nul or int(av[0]) == 0
+        elif op in (sre_c.AT, sre_c.ASSERT, sre_c.ASSERT_NOT):
+            continue  # matches no character
+        elif op is getattr(sre_c, "ATOMIC_GROUP", None):
+            f, nul = first_chars(av)
+        else:
+            return set(_ALPHABET), True  # back-references and the like: anything
+        out |= f
+        if not nul:
+            return out, False
+    return out, True
+
+
+def ambiguous_repeats(seq: Any) -> List[str]:
+    """Unbounded repetitions that can match one text in more than one way - the shape behind exponential
+    backtracking on a text that finally does not match: `(A|B)*` whose alternatives can begin with the same
+    character or can be empty, and `(X+)+`.  (Alternatives with disjoint first characters, none of them empty,
+    leave one way to go at every step.)"""
+    found: List[str] = []
+
+    def unwrap(body: Any) -> Any:
+        items = list(body)
+        while len(items) == 1 and items[0][0] is sre_c.SUBPATTERN:
+            items = list(items[0][1][3])
+        return items
+
+    def visit(s: Any) -> None:
+        for op, av in s:
+            if op in (sre_c.MAX_REPEAT, sre_c.MIN_REPEAT):
+                lo, hi, body = av
+                if hi is MAXREPEAT or int(hi) > 64:  # noqa: PLR2004
+                    items = unwrap(body)
+                    if len(items) == 1 and items[0][0] is sre_c.BRANCH:
+                        alts = items[0][1][1]
+                        firsts = [first_chars(a) for a in alts]
+                        for i, (fa, na) in enumerate(firsts):
+                            if na:
+                                found.append(f"an alternative of a repeated group can be empty (alternative {i + 1})")
+                            for j in range(i + 1, len(firsts)):
+                                common = fa & firsts[j][0]
+                                if common:
+                                    shown = sorted(common)[:3]
+                                    found.append(f"alternatives {i + 1} and {j + 1} of a repeated group can both begin with {shown!r}")
+                    elif len(items) == 1 and items[0][0] in (sre_c.MAX_REPEAT, sre_c.MIN_REPEAT):
+                        ilo, ihi, _b = items[0][1]
+                        if ihi is MAXREPEAT and int(ilo) >= 1:
+                            found.append("a repetition of a repetition (`(x+)+`)")
+                visit(body)
+            elif op is sre_c.SUBPATTERN:
+                visit(av[3])
+            elif op is sre_c.BRANCH:
+                for alt in av[1]:
+                    visit(alt)
+            elif op in (sre_c.ASSERT, sre_c.ASSERT_NOT):
+                visit(av[1])
+            elif op is getattr(sre_c, "ATOMIC_GROUP", None):
+                visit(av)
+
+    visit(seq)
+    return found
